@@ -130,19 +130,106 @@ theorem pronominalizeDeps_id (l : List Dep) (cod : Option (Gd × Nb × Int)) (h 
     have hd := h d List.mem_cons_self
     simp [pronominalizeDeps, hd, ih cod (fun x hx => h x (List.mem_cons_of_mem _ hx))]
 
+theorem compoundToks_nolier (v aux : VT) (ra : ConjRes) (form : Str) (np : Option Tok) (h : v.lier = false) :
+    compoundToks v aux ra form np = compoundToks v aux ra form none := by
+  simp [compoundToks, h]
+
 theorem conjugate_nolier (v : VT) (refl : Bool) (np : Option Tok) (h : v.lier = false) :
     conjugate v refl np = conjugate v refl none := by
-  unfold conjugate
-  simp [h]
+  unfold conjugate conjCompound
+  simp only [compoundToks_nolier _ _ _ _ np h]
+
+theorem bindE_ok {α β} (x : Except Crash α) (f : α → Except Crash β) (r : β) (h : (x >>= f) = .ok r) :
+    ∃ a, x = .ok a ∧ f a = .ok r := by
+  cases x with
+  | error e => simp [bind, Except.bind] at h
+  | ok a => exact ⟨a, rfl, h⟩
+
+/-- the shape of what `conjugate` returns -/
+theorem conjugate_cases (v : VT) (refl : Bool) (np : Option Tok) (r : List Tok × Bool)
+    (h : conjugate v refl np = .ok r) :
+    r = ([.qv v.lex.lemma v.lier], false) ∨
+    (v.t.auxTense = none ∧ ∃ cr, r = ([tokOfConj v cr], false)) ∨
+    (∃ ta aux ra form, v.t.auxTense = some ta ∧ r = compoundToks v aux ra form np ∧ aux.t = ta ∧
+      aux.isMod = false ∧ aux.isProg = false ∧ (aux.pat = some [reflStr] → isReflexive v refl = .ok true)) := by
+  unfold conjugate at h
+  split at h
+  · simp only [Except.ok.injEq] at h; exact Or.inl h.symm
+  · split at h
+    · rename_i hta
+      cases hc : conjSimple v refl with
+      | error e => simp [hc, Except.map] at h
+      | ok cr =>
+        simp only [hc, Except.map, Except.ok.injEq] at h
+        exact Or.inr (Or.inl ⟨hta, cr, h.symm⟩)
+    · rename_i ta hta
+      unfold conjCompound at h
+      split at h
+      · cases h
+      · simp only [Except.ok.injEq] at h; exact Or.inl h.symm
+      · obtain ⟨al, hal, h⟩ := bindE_ok _ _ _ h
+        obtain ⟨el, hel, h⟩ := bindE_ok _ _ _ h
+        obtain ⟨isR, hisR, h⟩ := bindE_ok _ _ _ h
+        obtain ⟨ra, _, h⟩ := bindE_ok _ _ _ h
+        obtain ⟨rp, _, h⟩ := bindE_ok _ _ _ h
+        simp only [pure, Except.pure, Except.ok.injEq] at h
+        have hal' : al = verb_avoir := by
+          have : auxLex avoir = .ok verb_avoir := rfl
+          rw [this] at hal; cases hal; rfl
+        have hel' : el = verb_etre := by
+          have : auxLex etre = .ok verb_etre := rfl
+          rw [this] at hel; cases hel; rfl
+        have hap : verb_avoir.pat ≠ some [reflStr] := by decide
+        have hep : verb_etre.pat ≠ some [reflStr] := by decide
+        refine Or.inr (Or.inr ⟨ta, (compoundAux v isR ta al el).1, ra, _, hta, h.symm, ?_, ?_, ?_, ?_⟩)
+        · unfold compoundAux; split <;> (try split) <;> simp [mkV, VT.setLemma]
+        · unfold compoundAux; split <;> (try split) <;> simp [mkV, VT.setLemma]
+        · unfold compoundAux; split <;> (try split) <;> simp [mkV, VT.setLemma]
+        · subst hal' hel'
+          unfold compoundAux
+          split
+          · rename_i hr; intro _; rw [hisR, hr]
+          · split <;> simp [mkV, VT.setLemma, hap, hep]
 
 /-- without a pronoun handed to it, the compound branch consumes none -/
 theorem conjugate_none_snd (v : VT) (refl : Bool) (r : List Tok × Bool) (h : conjugate v refl none = .ok r) :
     r.2 = false := by
-  unfold conjugate at h
-  simp only [bind, Except.bind, pure, Except.pure] at h
-  repeat' (split at h)
-  all_goals (first | (cases h; rfl) | (simp at h) | skip)
-  all_goals (try (simp only [Except.ok.injEq] at h; rw [← h]))
+  rcases conjugate_cases v refl none r h with rfl | ⟨_, cr, rfl⟩ | ⟨ta, aux, ra, form, _, rfl, _⟩
+  · rfl
+  · rfl
+  · simp only [compoundToks]; split <;> rfl
+
+/-- a verb that is not reflexive, not negated, not an auxiliary flag carrier: its tokens give `doPronounPlacement`
+    nothing to do -/
+def InertV (x : VT) : Prop :=
+  x.neg2 = none ∧ x.isMod = false ∧ x.isProg = false ∧ x.lier = false ∧ x.pat ≠ some [reflStr]
+
+theorem isRefl_false (v : VT) (h : v.pat ≠ some [reflStr]) : isReflexive v false = .ok false := by
+  simp [isReflexive, h]
+
+theorem conjugate_inert (v : VT) (r : List Tok × Bool) (hv : InertV v) (h : conjugate v false none = .ok r) :
+    ∀ t ∈ r.1, Inert false t := by
+  obtain ⟨hn, hm, hp, hl, hr⟩ := hv
+  have hvi : ∀ f, Inert false (.v v f) := fun f => ⟨hn, hm, hp, isRefl_false v hr⟩
+  rcases conjugate_cases v false none r h with rfl | ⟨_, cr, rfl⟩ | ⟨ta, aux, ra, form, _, rfl, _, ham, hap, hpat⟩
+  · intro t ht; simp at ht; subst ht; simp [Inert, Tok.isClitic]
+  · intro t ht
+    simp only [List.mem_singleton] at ht; subst ht
+    cases cr
+    · exact hvi _
+    · simp [tokOfConj, Inert, Tok.isClitic]
+  · have hauxpat : aux.pat ≠ some [reflStr] := by
+      intro hc
+      have := hpat hc
+      rw [isRefl_false v hr] at this
+      cases this
+    intro t ht
+    simp only [compoundToks, hl, Bool.false_eq_true, if_false, List.mem_cons, List.not_mem_nil, or_false] at ht
+    rcases ht with rfl | rfl
+    · cases ra
+      · exact ⟨hn, ham, hap, isRefl_false _ hauxpat⟩
+      · simp [tokOfConj, Inert, Tok.isClitic]
+    · exact ⟨rfl, hm, hp, isRefl_false _ hr⟩
 
 /-! #### the plain fragment -/
 
@@ -237,20 +324,20 @@ theorem plain_phrase (sp : Spec) (hp : Plain sp) (cv : List Tok × Bool)
   cases hsub : sp.subj with
   | none =>
     intro hne
-    simp only [List.nil_append, List.map_cons, List.map_nil, List.flatMap_cons, List.flatMap_nil, List.append_nil]
+    simp only [List.nil_append, List.map_cons, List.map_nil, List.flatMap_cons, List.flatMap_nil, List.append_nil, selToks]
     rw [removeEmpty_id _ (by simpa using hne)]
   | some s =>
     cases s with
     | pro vm pe n g =>
       intro hne
       simp only [List.cons_append, List.nil_append, List.map_cons, List.map_nil, List.flatMap_cons, List.flatMap_nil,
-        List.append_nil, El.toks]
+        List.append_nil, El.toks, selToks]
       rw [removeEmpty_id _ (by simpa using hne)]
     | np a =>
       intro hne
       simp only [hsub] at hsubj
       simp only [List.cons_append, List.nil_append, List.map_cons, List.map_nil, List.flatMap_cons, List.flatMap_nil,
-        List.append_nil, El.toks, hsubj, Bool.false_eq_true, if_false]
+        List.append_nil, El.toks, hsubj, Bool.false_eq_true, if_false, selToks]
       rw [removeEmpty_id _ (by simpa using hne)]
 
 /-! #### dependency side -/
